@@ -7,6 +7,7 @@ import RpgpProofs.Seipd1
 import RpgpProofs.Utf8
 import RpgpProofs.StreamFail
 import RpgpProofs.PacketIter
+import RpgpProofs.StreamIntr
 /-!
 # C09 — streaming is transparent: results independent of I/O fragmentation and faults
 
@@ -164,6 +165,24 @@ theorem prefix_encryptor_leaks_refill_buffer_witness :
 theorem encryptor_second_read_fails_witness :
     let enc : Bytes → Bytes := fun b => b.map (· + 100)
     encPoll 4 8 enc [7] ⟨[], false, false⟩ [.data [1, 2], .err, .data [3]] [4, 4, 4] = [.fail, .fail, .fail] := by decide
+
+/-! ## interrupted reads (`util::fill_buffer`) -/
+
+/-- a source whose reads are *interrupted* (`ErrorKind::Interrupted`: retry, says the `Read`
+contract) is just another way of delivering the same data: `fill_buffer` returns the same octets,
+leaves the same source behind and fails in the same cases as over the source without the
+interruptions (D14c: before the repair the interruption was returned and what had been read so far
+was forgotten — consumers that retried continued with a hole) -/
+theorem fill_buffer_interruptions_transparent (src : List EvI) (n fuelI fuel : Nat)
+    (h1 : src.length + n ≤ fuelI) (h2 : src.length + n ≤ fuel) :
+    RestAgrees (fillBufferIntr fuelI src n) (fillBufferEv fuel (dropIntr src) n) := by
+  simp only [fillBufferIntr, fixD14c_on, decide_true]
+  exact fillBufferI_transparent fuelI fuel src n h1 h2
+
+theorem fill_buffer_interrupted_witness :
+    fillBufferI false 8 [.data [1, 2], .intr, .data [3, 4]] 4 = none ∧
+    fillBufferI true 8 [.data [1, 2], .intr, .data [3, 4]] 4 = some ([1, 2, 3, 4], []) :=
+  fillBuffer_interrupted_witness
 
 /-! ## the packet iterator over a reader that fails (`packet/many.rs`) -/
 
